@@ -199,8 +199,9 @@ def kmat_case(ctx, qp, rng, info_base):
         else:
             yl = rng.choice([-1, 1], size=n)
         yl = yl[rng.permutation(n)]
-        ycont = ["ndarray", "list", "float"][int(rng.integers(3))]
-        Yl = yl if ycont == "ndarray" else ([int(v) for v in yl] if ycont == "list" else [float(v) for v in yl])
+        ycont = ["ndarray", "list", "float", "float_ndarray"][int(rng.integers(4))]
+        # the same label container is handed to every call below (as a user would): a function that rescales it in place corrupts later calls
+        Yl = (yl.copy() if ycont == "ndarray" else ([int(v) for v in yl] if ycont == "list" else ([float(v) for v in yl] if ycont == "float" else yl.astype(float))))
         Kref = direct(k, Xn, Xn)
         if not sym:
             Kref = np.triu(Kref) + np.triu(Kref, 1).T
@@ -238,6 +239,10 @@ def kmat_case(ctx, qp, rng, info_base):
                     if not abs(v - exp) <= TOL * max(1.0, abs(exp)):
                         viol("cost.formula", fn, f"value {v!r} differs from formula {exp!r} (labels {lab_mode} {ycont}, rescale={rescale}, assume={assume})",
                              f"formula:{fn}", v, exp)
+        ctx.ev("cost.formula")
+        if not np.array_equal(np.asarray(Yl, dtype=float), yl.astype(float)):
+            viol("cost.formula", "polarity", f"the caller's label container ({ycont}) was modified by polarity/target_alignment: {np.asarray(Yl).tolist()} (was {yl.tolist()})",
+                 "mutates-labels")
 
 
 # ----------------------------------------------------------------------------------------------- embedding kernels
